@@ -78,7 +78,8 @@ class DependentType(type):
         return value
 
     def __init__(self, bound):
-        self.bound = bound
+        # The bound may be written like any annotation (int | str, ...)
+        self.bound = normalize_type(bound, None) if bound else bound
 
     def __class_getitem__(cls, item):
         items = (item,) if not isinstance(item, tuple) else item
